@@ -1,11 +1,12 @@
 (* The shape of the server's shutdown paths, as read from the source by tools/py2coq/gen_shutdown.py. *)
 Record flags := {
-  fin_children : bool;             (* RemoteServer.run finally: the clean-up loop covers self.children *)
+  fin_children : bool;             (* RemoteServer.run finally: the clean-up loop covers self.children - and self.children holds every direct child ever spawned: in the whole
+                                      class it is only initialised to [], appended to, and cleared right after such a loop *)
   fin_contexts : bool;             (* ... and self.contexts.values() *)
   fin_force : bool;                (* ... child.terminate(..., force=True) *)
   fin_sigterm : bool;              (* ... if child.is_alive(): os.kill(child.pid, SIGTERM) *)
   stop_exceptions_caught : bool;   (* WorkerTerminatedError leaves the accept loop through the finally *)
-  hnd_kills_children : bool;       (* the SIGTERM handler SIGTERMs every live direct child *)
+  hnd_kills_children : bool;       (* the SIGTERM handler SIGTERMs every live direct child (same condition on self.children) *)
   hnd_redelivers : bool;           (* ... then restores the default action and signals itself *)
   ctx_clean_in_finally : bool;     (* RemoteContextWorker.do_work: finally: self._target(None, _clean=True) *)
   ctx_passes_on_sigterm : bool;    (* the context helper passes SIGTERM on to the workers it spawned *)
